@@ -677,6 +677,9 @@ func execSeqOps(r *Record, root string, after func(s *seqRun)) *core.Outcome {
 	out.Ops = len(ops)
 	out.Steps = len(ops)
 	out.HistHash = core.Hash(s.hist...)
+	for i := range s.obs { // the scratch root differs from process to process
+		s.obs[i] = strings.ReplaceAll(s.obs[i], root, "$ROOT")
+	}
 	out.ObsHash = core.Hash(s.obs...)
 	out.Shape = core.Hash(shape...)
 	out.Nontrivial = len(ops) >= 5 && s.stubN >= 1
